@@ -46,6 +46,7 @@ def run(ctx: Ctx) -> None:
     determinism(ctx, rs)
     seq_pairs(ctx, rs)
     monotone(ctx, rs)
+    queued_events_first(ctx, rs)
     cpu_task(ctx, rs)
     runner_and_sleep(ctx, rs)
 
@@ -393,3 +394,24 @@ def cpu_task(ctx: Ctx, rs: RustProgram) -> None:
         ctx.violation("C18.4/step-iterated", key_of(st.file, st.qual, "effect outside the instruction loop"),
                       f"CoreRuntime::step does `{what[:90]}` once per call, outside `for _ in 0..instructions`: step(n) is then not step(1) repeated n times, so the scheduler-driven CPU (one step(1) per wake-up) and the synchronous loop leave different machine states", f"{st.file}:{x.get('ln')}")
     ctx.instance("C18.4/step-iterated", "top-level statements of CoreRuntime::step: items, the per-instruction loop, the result - no per-call effects", nn, 3)
+
+
+def queued_events_first(ctx: Ctx, rs: RustProgram) -> None:
+    """An event that is already queued is handed out by the next run_for call whatever else is going on: one `events_queue.pop_front()`
+    of run_for is reached unconditionally at entry.  If every pop sits under the `tasks remain && clock < target` loop condition, the
+    second of two events emitted in the last batch is stranded once the task queue drains."""
+    fn = rs.fn(DRV, "AsyncDriver::run_for")
+    g = cfgmod.build_rs(fn.node, fn.qual)
+    pops = [c for c in walk(fn.body) if c.get("k") == "mcall" and c["m"] == "pop_front" and "events_queue" in expr_text(c["recv"])]
+    ctx.need(bool(pops), "AsyncDriver::run_for: events_queue.pop_front() not found")
+    uncond = 0
+    for c in pops:
+        node = g.node_of(c)
+        gs = [a for a, _pol, _o in (g.guards_of(node) if node is not None else []) if isinstance(a, dict)]
+        if not gs:
+            uncond += 1
+    if not uncond:
+        ctx.violation("C18.2/queued-events-first", key_of(fn.file, fn.qual, "queued events handed out only while tasks remain"),
+                      "every events_queue.pop_front() of run_for is guarded by the task-loop condition: an event still queued when the last task finishes is never returned "
+                      "(two tasks emitting in the same final cycle: the driver reports one event and loses the other)", fn.where)
+    ctx.instance("C18.2/queued-events-first", "events_queue.pop_front() sites of run_for; one is reached unconditionally at entry", len(pops), 2)
